@@ -4,7 +4,22 @@ import CoolerModel.Model.Selectors
 
 Every statement is about the definitions of `Model/Selectors.lean`, which the correspondence harness
 (`harness/c14.py`) executes against `Cooler.chroms()/bins()/pixels()[…]`, `cooler.annotate` and
-`_IndexingMixin._process_slice`.
+`_IndexingMixin._process_slice`.  All theorems hold for tables, pixel lists and offsets of any size.
+
+Main theorems (helper lemmas in between):
+* `processSlice_spec`, `processScalar_spec` — subscripts with bounds in `[-n, n] ∪ {None}` are Python's
+  `slice.indices`; scalars in `[-n, n)` select one row, `k ≥ n` is an `IndexError`.
+* `slice_rows` (+ `slice_rows_cell`, `cell_plain`, `cell_enum`) — `get` returns `rows.drop lo |>.take (hi-lo)`
+  projected on the requested columns, labelled `lo..hi-1`.
+* `selector_slice_rows`, `selector_scalar_row`, `selector_slice_labels`, `tableGet_part`, `pixels_join_slice`
+  — every in-domain key on any selector returns the corresponding part of the whole table, labelled
+  with the row numbers.
+* `column_selection_commutes`, `column_selection_commutes_one` — `sel[cols][key] = (sel[key])[cols]`.
+* `annotate_correct`, `annotateSpec_ok`, `annotate_selector_correct`, `annotate_forms_agree`,
+  `annotate_empty` — annotation against a whole frame, a selector or any sufficient contiguous part
+  attaches to every pixel the rows of its own two bins, keeps order and index; both strategies.
+* `chrom_decode_agree`, `chrom_decode_agree_frames` — enum and integer chromosome storage agree.
+* `legacy_substring_rule_violates` — the pre-repair `"chrom" in fields` rule (D20) breaks the property.
 -/
 namespace Cooler.C14
 open Cooler Cooler.Tbl
@@ -1358,6 +1373,57 @@ example :
     annotate ⟨["bin1_id", "bin2_id", "count"], [], [], false⟩
       (.frame ⟨["chrom", "start"], [2], [[.str "c1", .int 0]], false⟩) true
     = .ok ⟨["chrom1", "start1", "chrom2", "start2", "count"], [], [], false⟩ := by decide
+
+/-! ### the labels of a selector's rows are their row numbers -/
+
+/-- the whole table read through a selector is labelled `0, 1, …` (its row numbers) -/
+theorem selector_whole_contig (s : Selector) (W : Frame) (hn : s.nmax = srcLen s.src)
+    (hj : srcJoin s.src = false) (hW : s.getRows (.slice none none none) = .ok W) : Contig W 0 := by
+  rw [getRows_whole] at hW
+  obtain ⟨src, fields, nmax⟩ := s
+  simp only at hn hj hW
+  subst hn
+  cases src with
+  | chroms t => exact (tableGet_whole_contig t _ _ W hW).1
+  | bins t names =>
+    exact (binsSel_whole_shape ⟨t, names, fields, t.rows.length⟩ W rfl (by
+      simp only [BinsSel.getRows, processKey, true_or, if_true, processSlice, normBound]
+      exact hW)).1
+  | pixels t bt join =>
+    simp only [srcJoin] at hj
+    subst hj
+    simp only [Selector.slice, pixelsGet, srcLen] at hW
+    cases h : tableGet t 0 (some (t.rows.length : Int)) (fields.resolve pixelsStd t.names).1
+        (fields.resolve pixelsStd t.names).2 with
+    | error e => rw [h] at hW; simp at hW
+    | ok out =>
+      rw [h] at hW
+      simp only [Bool.false_eq_true, if_false, Except.ok.injEq] at hW
+      subst hW
+      exact (tableGet_whole_contig t _ _ out h).1
+
+/-- **selector_slice_labels** — the rows a slice returns are labelled with their row numbers
+`a, …, b-1` and there are `b - a` of them (for `a ≤ b` within the table read) -/
+theorem selector_slice_labels (s : Selector) (W : Frame) (lo hi : Option Int)
+    (hn : s.nmax = srcLen s.src) (hj : srcJoin s.src = false)
+    (hW : s.getRows (.slice none none none) = .ok W)
+    (hlo : InDom s.nmax lo) (hhi : InDom s.nmax hi)
+    (hab : (pySliceIndices s.nmax lo hi).1 ≤ (pySliceIndices s.nmax lo hi).2)
+    (hb : (pySliceIndices s.nmax lo hi).2 ≤ W.rows.length) :
+    ∃ F, s.getRows (.slice lo hi none) = .ok F
+      ∧ F.index = labels ((pySliceIndices s.nmax lo hi).1 : Int)
+          ((pySliceIndices s.nmax lo hi).2 - (pySliceIndices s.nmax lo hi).1)
+      ∧ F.rows = (W.rows.drop (pySliceIndices s.nmax lo hi).1).take
+          ((pySliceIndices s.nmax lo hi).2 - (pySliceIndices s.nmax lo hi).1)
+      ∧ F.cols = W.cols := by
+  refine ⟨_, selector_slice_rows s W lo hi hn hj hW hlo hhi, ?_, rfl, rfl⟩
+  have hc := selector_whole_contig s W hn hj hW
+  show (W.index.drop _).take _ = _
+  rw [hc, labels_drop_take]
+  congr 1
+  · simp
+  · omega
+
 
 /-! ### `Cooler.pixels(join=True)` -/
 
